@@ -347,7 +347,7 @@ def run_native(P, pid, tier, seed, known):
                                 stderr=core.subprocess.PIPE, text=True, timeout=3000)
         stdout += p.stdout
         if p.returncode != 0:
-            if "panicked at" in p.stderr and "/repo/" in p.stderr:
+            if "panicked at" in p.stderr and (core.REPO + "/") in p.stderr:
                 # the implementation itself panicked where no panic is specified: that is a finding, not a tool failure
                 crashed.append((" ".join(args), p.stderr[-1500:]))
             else:
